@@ -150,12 +150,43 @@ def thread_scenario(rnd, sid, progs, variants, nthreads, special=None):
     return dict(id=sid, kind='threads', threads=ths, sync=sync)
 
 
+def race_scenario(rnd, sid, progs, special):
+    """a build racing with a READ-BACK (add / store / new_from / reader on bytes or files) of a definition built
+    beforehand: the builder waits inside its graph function until the other thread has announced its read-back;
+    or two read-backs side by side"""
+    pre = []
+    for k in range(2):
+        i = rnd.randrange(len(progs))
+        p = copy.deepcopy(progs[i])
+        p['name'] = 'pre%d' % k
+        pre.append(dict(prog=p, key='pre%d:k%d' % (k, i)))
+    if rnd.random() < 0.3:
+        p = copy.deepcopy(special['unknown'])
+        p['name'] = 'pre1'
+        pre[1] = dict(prog=p, key='pre1:unknown')
+
+    def rb(k):
+        how = rnd.choice(HOWS_OBJ + HOWS_BYTES)
+        var = 'valid' if how in HOWS_OBJ else rnd.choice(['valid', 'valid', 'trunc', 'badclass'])
+        return dict(k='readback', pre=k, how=how, variant=var, cut=rnd.randint(0, 999))
+    i, j = rnd.randrange(len(progs)), rnd.randrange(len(progs))
+    if rnd.random() < 0.75:
+        ths = [[dict(k='build', prog=progs[i], key='k%d' % i), dict(k='build', prog=progs[j], key='k%d' % j)],
+               [rb(rnd.randrange(2)), dict(k='build', prog=progs[j], key='k%d' % j), rb(rnd.randrange(2))]]
+        sync = [[0, rnd.randint(1, max(1, len(progs[i]['ins']) - 1)), 1]]
+    else:
+        ths = [[rb(0), dict(k='build', prog=progs[i], key='k%d' % i)], [rb(1), rb(0), dict(k='build', prog=progs[j], key='k%d' % j)]]
+        sync = []
+    return dict(id=sid, kind='threads', threads=ths, sync=sync, pre=pre)
+
+
 def run(ctx):
     thorough = not ctx.quick
     # 1. protocol model; the two crippled protocols must break the invariants (anti-vacuity)
     r = ctx.model_check('Build', 'Build_thorough.cfg' if thorough else 'Build.cfg', require_cover=ACTIONS, timeout=1500)
     ctx.expect_ok(r, 'Build protocol')
     for cfg, inv in (('Build_noclear.cfg', 'NoResidue'), ('Build_noreadclear.cfg', 'NoResidue'),
+                     ('Build_ctxearly.cfg', 'Isolation'), ('Build_clearlate.cfg', 'Isolation'),
                      ('Build_nolock.cfg', 'Deterministic')):
         r = ctx.model_check('Build', cfg, timeout=600, label='crippled protocol must violate ' + inv)
         if inv not in r.violated:
@@ -173,6 +204,9 @@ def run(ctx):
         sid += 1
     for _ in range(240 if thorough else 80):
         scen.append(thread_scenario(rnd, sid, progs, variants, rnd.choice([2, 2, 3]), special))
+        sid += 1
+    for _ in range(160 if thorough else 48):
+        scen.append(race_scenario(rnd, sid, progs, special))
         sid += 1
     per = max(1, (len(scen) + 15) // 16)
     inputs = [dict(scenarios=scen[i:i + per]) for i in range(0, len(scen), per)]
@@ -247,7 +281,7 @@ def run(ctx):
                     inside.add(e['t'])
                 elif e['e'] in ('leave', 'exit'):
                     inside.discard(e['t'])
-                elif e['e'] == 'attempt' and inside - {e['t']}:
+                elif e['e'] in ('attempt', 'rattempt') and inside - {e['t']}:
                     hot = True
             if hot:
                 nover += 1
